@@ -517,7 +517,7 @@ pub enum Ctor {
 /// Capacities the interpreter is monomorphised for.
 pub const CAPS_SMALL: &[usize] = &[0, 1, 2, 3, 4, 5, 6, 7, 8];
 pub const CAPS_RANDOM: &[usize] =
-    &[0, 1, 2, 3, 4, 5, 6, 7, 8, 9, 13, 16, 17, 31, 32, 33, 64, 65, 100, 128, 129, 255, 256, 1000];
+    &[0, 1, 2, 3, 4, 5, 6, 7, 8, 9, 10, 11, 12, 13, 16, 17, 31, 32, 33, 64, 65, 100, 128, 129, 255, 256, 1000];
 
 #[macro_export]
 macro_rules! dispatch_cap {
@@ -533,6 +533,9 @@ macro_rules! dispatch_cap {
             7 => { const $N: usize = 7; $body }
             8 => { const $N: usize = 8; $body }
             9 => { const $N: usize = 9; $body }
+            10 => { const $N: usize = 10; $body }
+            11 => { const $N: usize = 11; $body }
+            12 => { const $N: usize = 12; $body }
             13 => { const $N: usize = 13; $body }
             16 => { const $N: usize = 16; $body }
             17 => { const $N: usize = 17; $body }
